@@ -21,7 +21,8 @@ pub struct C29;
 pub enum Tok {
     /// the configured token with this (scaled) index; "tok" if none is configured
     Configured(u16),
-    /// derived from a configured token: 0 drop last char, 1 append 'x', 2 upper-case, 3 empty string
+    /// derived from a configured token: 0 drop last char, 1 append 'x', 2 upper-case, 3 empty string, 4..=10 wrapped in
+    /// whitespace / NUL / BOM / no-break space, 11 doubled
     Near(u16, u8),
     Other(String),
     /// no authentication record at all
@@ -79,7 +80,7 @@ fn tok_string(t: &Tok, tokens: &[String]) -> Option<String> {
             } else {
                 tokens[idx(*i, tokens.len())].clone()
             };
-            Some(match k % 4 {
+            Some(match k % 12 {
                 0 => {
                     let mut b = base;
                     b.pop();
@@ -87,7 +88,16 @@ fn tok_string(t: &Tok, tokens: &[String]) -> Option<String> {
                 }
                 1 => format!("{base}x"),
                 2 => base.to_uppercase(),
-                _ => String::new(),
+                3 => String::new(),
+                // the configured token wrapped in characters a lenient comparison might skip
+                4 => format!("{base} "),
+                5 => format!(" {base}"),
+                6 => format!("{base}\n"),
+                7 => format!("\t{base}\r\n"),
+                8 => format!("{base}\0"),
+                9 => format!("\u{feff}{base}"),
+                10 => format!("{base}\u{a0}"),
+                _ => format!("{base}{base}"),
             })
         }
         Tok::Other(s) => Some(s.clone()),
@@ -233,7 +243,7 @@ fn encode(r: &Req, tokens: &[String]) -> Vec<u8> {
 fn tok() -> BoxedStrategy<Tok> {
     prop_oneof![
         5 => any::<u16>().prop_map(Tok::Configured),
-        3 => (any::<u16>(), 0u8..4).prop_map(|(i, k)| Tok::Near(i, k)),
+        3 => (any::<u16>(), 0u8..12).prop_map(|(i, k)| Tok::Near(i, k)),
         2 => prop::sample::select(vec!["", "tok", "pool-a", "pool-b", "hi", "x", "pool-", "POOL-A"]).prop_map(|s| Tok::Other(s.to_string())),
         1 => Just(Tok::Absent),
     ]
@@ -468,7 +478,7 @@ fn fail(sig: &str, what: String, l: Labels) -> Outcome {
 impl Property for C29 {
     type Case = Case;
     const ID: &'static str = "C29";
-    const RULE: &'static str = "server config (0..3 tokens out of {pool-a,pool-b,hi,x,\"\"}, accepted versions, keep-alive permit available or not) × a first request and 0..3 follow-up requests (fixed-key / support / plain key exchange; token = configured, near-miss (truncated, extended, upper-cased, empty), foreign or absent; keep-alive flag; record order rotated; a few malformed variants), sent by a raw TLS client over an in-memory connection to handle_connection + handle_longterm. NON-TRIVIAL: the first request is a fixed-key or support request (token decision exercised); classes: token ok / wrong / empty / absent × keep-alive × permit, and plain key exchange on a kept-open connection.";
+    const RULE: &'static str = "server config (0..3 tokens out of {pool-a,pool-b,hi,x,\"\"}, accepted versions, keep-alive permit available or not) × a first request and 0..3 follow-up requests (fixed-key / support / plain key exchange; token = configured, near-miss (truncated, extended, upper-cased, empty, wrapped in blanks / newline / tab / NUL / BOM / no-break space, doubled), foreign or absent; keep-alive flag; record order rotated; a few malformed variants), sent by a raw TLS client over an in-memory connection to handle_connection + handle_longterm. NON-TRIVIAL: the first request is a fixed-key or support request (token decision exercised); classes: token ok / wrong / empty / absent × keep-alive × permit, and plain key exchange on a kept-open connection.";
     const ASSUMPTIONS: &'static [&'static str] = &[
         "positive direction (configured token ⇒ served; asked ∧ permit ⇒ kept open) is checked as well, grounded in the crate's own tests; the statement itself is 'only if'",
         "on a kept-open connection the token of follow-up pool requests is not judged (statement scopes the token rule to new connections)",
